@@ -23,6 +23,9 @@ _MIN = {
     'op_to_constref': 64000, 'op_cast_away_const': 96000, 'op_setref_counting_off': 64000, 'op_setref_counting_on': 38000,
     'op_neutralize': 64000, 'op_neutralize_sole_owner': 960, 'op_move': 48000, 'op_dummyref': 48000, 'op_refcountableref_roundtrip': 48000,
     'op_setref_raw_pointer': 32000, 'op_clone_pooled': 9600, 'op_clone_heap': 3200, 'op_ensure_private': 960, 'op_status': 12000,
+    # a non-NULL reference switched to ANOTHER object with the OTHER counting mode (SetRef, operator=, swap; Ref and ConstRef)
+    'op_setref_other_object_mode_change_on_to_off': 10000, 'op_setref_other_object_mode_change_off_to_on': 10000,
+    'op_assign_other_object_mode_change': 20000, 'op_swap_different_modes': 5000,
     'op_sanity_check_concurrent': 12000, 'op_drain_concurrent': 4800,
 }
 
@@ -32,7 +35,7 @@ SPEC = dict(
     rule=("one case = a single-threaded history of 200-600 Ref/ConstRef/ObjectPool operations audited exactly after every operation "
           "(library count == references, objects alive == objects reachable), followed by 2-8 threads x 1500-3000 operations that own "
           "private Ref/ConstRef variables, exchange copies through 6 (mixed mode) or 2 (hot mode: 8 threads, a new object every ~40th "
-          "operation) locked mailboxes and copy/assign/reset/swap/SetRef(on,off)/const-cast/Neutralize/move/clone them without any lock; "
+          "operation) locked mailboxes and copy/assign/reset/swap/SetRef(on,off)/const-cast/Neutralize/move/clone them and switch a non-NULL reference to another object with the other counting mode without any lock; "
           "three pools with 1/3/8 objects per slab and max size 2..16 plus plain heap objects, objects may hold a reference to an older "
           "object; one delay placement (4 hook sites x {any thread, thread 0, thread 1} x {yield, sleep 50-2000 us, spin}) per case, "
           "round-robin over the case index (36 single placements, 2 jitter-only, 1 without delay, 1 pair/triple per 40 cases); three "
